@@ -199,6 +199,21 @@ def build_doc(rng, skeleton, profile, fps, tokens):
   for k in range(nreg):
     r = m.Region("r%d" % (k + 1), doc)
     decorate(r, doc.get_lang(), m.WhiteSpaceHandling.DEFAULT, hi=12)
+    if rng.random() < 0.2:
+      # properties that interact, specified TOGETHER (the direction that the writing mode would imply anyway, or the other
+      # one), with an animation step on one of them
+      import ttconv.style_properties as sp_
+      wm = rng.choice([sp_.WritingModeType.lrtb, sp_.WritingModeType.rltb, sp_.WritingModeType.tbrl])
+      r.set_style(sp_.StyleProperties.WritingMode, wm)
+      r.set_style(sp_.StyleProperties.Direction, rng.choice([sp_.DirectionType.ltr, sp_.DirectionType.rtl]))
+      if rng.random() < 0.7:
+        b_ = time_value(rng, profile, fps, 0, 2)
+        if rng.random() < 0.6:
+          other = rng.choice([x for x in (sp_.WritingModeType.lrtb, sp_.WritingModeType.rltb, sp_.WritingModeType.tblr) if x is not wm])
+          r.add_animation_step(m.DiscreteAnimationStep(sp_.StyleProperties.WritingMode, b_, b_ + time_value(rng, profile, fps, 1, 3), other))
+        else:
+          r.add_animation_step(m.DiscreteAnimationStep(sp_.StyleProperties.Direction, b_, b_ + time_value(rng, profile, fps, 1, 3),
+                                                       rng.choice([sp_.DirectionType.ltr, sp_.DirectionType.rtl])))
     doc.put_region(r)
     regions.append(r)
 
@@ -315,6 +330,27 @@ def build_doc(rng, skeleton, profile, fps, tokens):
 
 
 # ---- projection ----------------------------------------------------------------------------------------
+
+def edit_doc(doc, rng):
+  """One or two in-place edits of a document that has already been written: a style set on an element or a region (often the
+  first pixel length of the document), an initial value put or replaced."""
+  import ttconv.model as m
+  import ttconv.style_properties as sp
+  cat = style_catalogue()
+  px = [(p, v) for p, v in cat if uses_px(v)]
+  targets = [e for e in doc.get_body().dfs_iterator() if not isinstance(e, (m.Text, m.Br))] if doc.get_body() is not None else []
+  regions = list(doc.iter_regions())
+  for _ in range(rng.choice([1, 1, 2])):
+    name, val = rng.choice(px) if rng.random() < 0.5 else rng.choice(cat)
+    prop = getattr(sp.StyleProperties, name)
+    r = rng.random()
+    if r < 0.25:
+      doc.put_initial_value(prop, val)
+    elif r < 0.45 and regions:
+      rng.choice(regions).set_style(prop, val)
+    elif targets:
+      rng.choice(targets).set_style(prop, val)
+
 
 def all_times(doc):
   out = []
